@@ -411,52 +411,48 @@ func (m gmap) sorted() gmap {
 	return c
 }
 
-func gveq(a, b gval) (bool, bool) { // (equal, defined)
+// outcome of "=" on two values: 0 false, 1 true, 2 error ("operation '=' not defined")
+func gveq(a, b gval) int {
+	b2i := func(b bool) int {
+		if b {
+			return 1
+		}
+		return 0
+	}
 	num := func(g gval) bool { return g.K == "i" || g.K == "f" }
 	if num(a) && num(b) {
-		return a.I == b.I, true
+		return b2i(a.I == b.I)
 	}
 	if a.K == "s" && b.K == "s" {
-		return a.S == b.S, true
+		return b2i(a.S == b.S)
 	}
 	if a.K == "m" && b.K == "m" {
-		// nested maps are compared key-wise (deep equality)
-		if len(a.M) != len(b.M) {
-			return false, true
-		}
-		for _, e := range a.M {
-			x := gmap(b.M).get(e.K)
-			if x == nil {
-				return false, true
-			}
-			eq, ok := gveq(e.V, *x)
-			if !ok {
-				return false, false
-			}
-			if !eq {
-				return false, true
-			}
-		}
-		return true, true
+		return gmap(a.M).equalOutcome(gmap(b.M))
 	}
-	return false, false
+	return 2
 }
 
-// is "a = b" true for finite maps?
-func (m gmap) equalTrue(o gmap) bool {
+// outcome of "m = o" for finite maps, independent of any order: false if the sizes differ; otherwise an
+// error if some common key has incomparable values, else false if a key is missing or a value differs, else true
+func (m gmap) equalOutcome(o gmap) int {
 	if len(m) != len(o) {
-		return false
+		return 0
 	}
+	res := 1
 	for _, e := range m {
 		x := o.get(e.K)
 		if x == nil {
-			return false
+			res = 0
+			continue
 		}
-		if eq, ok := gveq(*x, e.V); !ok || !eq {
-			return false
+		switch gveq(*x, e.V) {
+		case 2:
+			return 2
+		case 0:
+			res = 0
 		}
 	}
-	return true
+	return res
 }
 
 // what the property demands of an operation; ok=false: the operation has to fail
@@ -918,10 +914,19 @@ func (o *stepObs) disagreements(want gmap, ms []gmap, okm []bool, probes []strin
 		if !okm[j] {
 			continue
 		}
-		ab, ba := e[1].(*bool), e[2].(*bool)
-		add((ab != nil && *ab) == want.equalTrue(ms[j]), "equal")
-		add((ba != nil && *ba) == ms[j].equalTrue(want), "equal")
-		add((ab != nil && *ab) == (ba != nil && *ba), "equal-symmetry")
+		out := func(b *bool) int {
+			if b == nil {
+				return 2
+			}
+			if *b {
+				return 1
+			}
+			return 0
+		}
+		ab, ba := out(e[1].(*bool)), out(e[2].(*bool))
+		add(ab == want.equalOutcome(ms[j]), "equal")
+		add(ba == ms[j].equalOutcome(want), "equal")
+		add(ab == ba, "equal-symmetry")
 	}
 	// dedupe, keep order
 	seen := map[string]bool{}
